@@ -57,6 +57,26 @@ CLAIMS = {
         note=NOTE_BASE,
         technique="static analysis: effect/ownership discipline over the MIR call graph",
     ),
+    "C05": dict(
+        category="other",
+        text="Static check of the structural clauses of min/max/argmin/argmax: emptiness decided first and mapped to EmptyInput; every "
+             "element comparison is partial_cmp→UndefinedOrder via `?`; the scan covers the whole receiver (first element compared too); "
+             "replacement predicate new<best for min forms / new>best for max forms, arg and value forms agreeing; arg forms return the "
+             "indexed_iter index updated together with the value. Does not decide that the scan result is extremal for all value patterns.",
+        design_ref="DESIGN.md §4 C05",
+        note=NOTE_BASE,
+        technique="static analysis: idiom + sibling-agreement rules over MIR (guard table, comparator direction table)",
+    ),
+    "C14": dict(
+        category="other",
+        text="Static check of the filter structure of all NaN-skipping operations: traversal covers the receiver, user closure invoked "
+             "exactly once on the Some branch of try_as_not_nan(item) with that value/index, accumulator passed through otherwise; lane "
+             "forms are strip∘plain with the caller's axis/q/strategy; comparator direction and EmptyInput rule of the skip-NaN extrema; "
+             "stripped lanes sound for every stride (R2/R3). Does not decide value equality with the filtered plain operation.",
+        design_ref="DESIGN.md §4 C14",
+        note=NOTE_BASE,
+        technique="static analysis: branch-discipline (dominance) rules over MIR closures",
+    ),
 }
 
 PENDING = "not yet claimed in this revision: the static rule set for it is still being implemented (see DESIGN.md §8); no check is registered rather than a weak one"
